@@ -31,6 +31,9 @@ type Model struct {
 	OnState func(x *Explorer, w *World, path []string)
 	// OnTransition runs after every accepted honest block (w is the successor).
 	OnTransition func(x *Explorer, prev, w *World, path []string)
+	// StopWhenSpent ends a trace as soon as the deviation budget is used up (no empty blocks up to the horizon):
+	// for "block combinatorics" models whose subject is the last non-empty block itself.
+	StopWhenSpent bool
 	// StaleResolve enables same-block revise->resolve tuples (C07).
 	StaleResolve bool
 	// SkipStart: number of initial empty blocks mined before exploration starts.
@@ -273,6 +276,10 @@ func (x *Explorer) expand(w *World, d int, path []string, next func(w *World, pa
 		}
 	}
 	if w.Height() >= m.H {
+		x.Traces.Add(1)
+		return
+	}
+	if m.StopWhenSpent && d <= 0 {
 		x.Traces.Add(1)
 		return
 	}
